@@ -1,6 +1,8 @@
 package nodis
 
 import (
+	"math"
+
 	"github.com/diiyw/nodis/ds"
 	"github.com/diiyw/nodis/ds/zset"
 	"github.com/diiyw/nodis/patch"
@@ -169,6 +171,10 @@ func (n *Nodis) ZIncrBy(key string, member string, score float64) float64 {
 	_ = n.exec(func(tx *Tx) error {
 		meta := tx.writeKey(key, n.newZSet)
 		v = meta.value.(*zset.SortedSet).ZIncrBy(member, score)
+		if math.IsNaN(v) {
+			// +inf and -inf do not add up: the score is left as it was
+			return nil
+		}
 		n.signalModifiedKey(key, meta)
 		n.notify(func() []patch.Op {
 			return []patch.Op{{Type: patch.OpTypeZIncrBy, Data: &patch.OpZIncrBy{Key: key, Member: member, Score: score}}}
